@@ -17,7 +17,7 @@ ASSUMPTIONS = ["reference rule interpreter / expression evaluator from vlib/ref.
 RUN_OPTS = {"batch_size": 6, "timeout_per_case": 60.0}
 MINIMA = {"*": {"rows_checked": 5000, "lineage_rows_checked": 50, "fast_reaction_rows_checked": 50, "schedule_checks": 50, "dt_counter_steps": 500,
                 "ode_steps": 500, "guard_rows": 500}}
-MODES = ["det", "ssa", "safe", "volume", "delay", "ssa_class", "lineage", "lineage_safe"]
+MODES = ["det", "ssa", "safe", "volume", "delay", "delay_volume", "safe_delay_volume", "ssa_class", "lineage", "lineage_safe"]
 
 
 def gen_case(rnd, i):
@@ -172,6 +172,9 @@ def simulate(mode, M, LM, tp, dt, seed):
         return np.array(py_simulate_model(tp.copy(), Model=M, stochastic=True, volume=2.0, return_dataframe=False).py_get_result())
     if mode == "delay":
         return np.array(py_simulate_model(tp.copy(), Model=M, stochastic=True, delay=True, return_dataframe=False).py_get_result())
+    if mode in ("delay_volume", "safe_delay_volume"):
+        return np.array(py_simulate_model(tp.copy(), Model=M, stochastic=True, delay=True, volume=2.0, safe=(mode == "safe_delay_volume"),
+                                          return_dataframe=False).py_get_result())
     if mode == "ssa_class":
         itf = ModelCSimInterface(M)
         itf.py_set_dt(dt)
